@@ -32,7 +32,8 @@ type fakeUpstream struct {
 	node     int
 
 	addCall   int // event sequence number at which AddConn was invoked (concurrent family)
-	removeRet int // event sequence number after RemoveConn returned (0 = never removed)
+	removeRet int // event sequence number after the first RemoveConn returned (0 = never removed)
+	removed   bool // a removal has been issued (concurrent family)
 }
 
 func (u *fakeUpstream) EndpointID() string      { return u.endpoint }
